@@ -262,7 +262,17 @@ fn apply_ops(w: &World, mut ctx: ExecutionContext<'static>, mut m: ModelCtx, n: 
                     Ok(m.values[fi].clone())
                 };
                 crate::tr!("  set{} {name} = {} -> {:?}", if by_name { "_by_name" } else { "" }, val.render(), res.as_ref().map(|_| "Ok").map_err(|e| e.to_string()));
-                if res != want {
+                // the statement fixes whether a write succeeds and what a successful write returns; which error a
+                // refused write carries (and what the error says about types) it leaves open
+                let same = match (&res, &want) {
+                    (Ok(a), Ok(b)) => a == b,
+                    (Err(_), Err(_)) => true,
+                    _ => false,
+                };
+                if res != want && same {
+                    kernel::count("op.set_error_detail_differs");
+                }
+                if !same {
                     return Err(v(
                         "set-result-differs",
                         match &want {
